@@ -453,6 +453,12 @@ func (rf *Ref) execBody(params []string, args []V, body []Stmt, catches []Catch,
 		if !isProg || err != nil {
 			rf.pop()
 		}
+		if err == nil && !isProg && (c == cBrk || c == cCont) {
+			// 结束循环 / 继续循环 act on a loop of THIS body only.  One that is left over when a
+			// method body ends has no loop to act on: it never reaches a loop of the caller; the
+			// call is rejected (at the call boundary: the body's own handlers do not see it)
+			return nil, &ZErr{Class: "异常", Exc: &XV{}, AnyCode: true, Note: "loop signal left over by a method body"}
+		}
 	}
 	if err == nil {
 		return res, nil
